@@ -489,11 +489,17 @@ def check_overlap(pp, g, A, FN, S, nlayers, criterion):
     mask = np.zeros(nc, dtype=bool)
     mask[S] = True
     prev = mask
+    cf0, fn0 = g.cell_faces.copy(), g.face_nodes.copy()
     for L in range(0, nlayers + 1):
         try:
             with warnings.catch_warnings():
                 warnings.simplefilter("ignore")
                 r = pp.partition.overlap(g, np.array(S, dtype=int), L, criterion=criterion)
+            # frame: a query on the parent grid leaves the parent (its signed incidence and face-node relation) untouched -- a later
+            # extract_subgrid on the same grid depends on it
+            if (g.cell_faces != cf0).nnz or (g.face_nodes != fn0).nnz:
+                bad.append(("overlap: leaves the parent grid unchanged", f"layers={L}: cell_faces / face_nodes of the parent were modified", criterion))
+                g.cell_faces, g.face_nodes = cf0.copy(), fn0.copy()
         except Exception as e:
             bad.append(("overlap: returns the extended cell set", f"layers={L}: {type(e).__name__}: {e}", "single-cell result" if int(_expected_overlap(A, FN, mask, L, criterion).sum()) == 1 else "other"))
             prev = _expected_overlap(A, FN, mask, L, criterion)
